@@ -78,7 +78,7 @@ var msmThresholds = []int{49, 129, 321, 769, 1793, 4097, 9217, 20481}
 func genC09(t *rapid.T) c09Case {
 	c := c09Case{
 		API:        rapid.SampledFrom([]string{"element", "element", "bandersnatch", "multiscalar"}).Draw(t, "api"),
-		ScalarMode: rapid.SampledFrom([]string{"uniform", "uniform", "zero", "small", "mixsmall15", "mixsmall5", "recipes", "recipes", "limbs", "onehot", "word", "word", "paired_same", "paired_neg", "allsame"}).Draw(t, "scalars"),
+		ScalarMode: rapid.SampledFrom([]string{"uniform", "uniform", "zero", "small", "mixsmall15", "mixsmall5", "recipes", "recipes", "limbs", "onehot", "word", "word", "paired_same", "paired_neg", "allsame", "montforms"}).Draw(t, "scalars"),
 		PointMode:  rapid.SampledFrom([]string{"pool", "pool", "pool", "dup", "identity", "rep", "tieZ", "negpairs", "samepairs"}).Draw(t, "points"),
 		Seed:       rapid.Uint64().Draw(t, "seed"),
 		Mont:       rapid.Bool().Draw(t, "mont"),
@@ -117,6 +117,13 @@ func genC09(t *rapid.T) c09Case {
 func (c c09Case) msmScalar(j int) *big.Int {
 	h := hx.Expand(c.Seed, "msmsc", j)
 	switch c.ScalarMode {
+	case "montforms": // values whose limbs coincide with the OTHER form of a small number: k*2^256 mod r and k*2^-256 mod r
+		k := big.NewInt(int64(1 + j%3))
+		twoTo256 := new(big.Int).Lsh(big.NewInt(1), 256)
+		if j%2 == 0 {
+			return ref.FrMul(k, twoTo256)
+		}
+		return ref.FrMul(k, ref.FrInv(twoTo256))
 	case "allsame": // every term carries the same scalar
 		v := hx.Expand(c.Seed, "msmsc", 0)
 		if c.Seed%3 == 0 {
@@ -404,7 +411,7 @@ func genC09Inner(t *rapid.T) c09InnerCase {
 		N:       rapid.SampledFrom([]int{1, 2, 3, 7, 64, 143, 0, 5, 33}).Draw(t, "n"),
 		Mont:    rapid.Bool().Draw(t, "mont"),
 		NbTasks: rapid.SampledFrom([]int{1, 2, 16, 64}).Draw(t, "nbtasks"),
-		Mode:    rapid.SampledFrom([]string{"recipes", "recipes", "uniform", "limbs", "small", "mixsmall15", "word"}).Draw(t, "mode"),
+		Mode:    rapid.SampledFrom([]string{"recipes", "recipes", "uniform", "limbs", "small", "mixsmall15", "word", "montforms", "allsame"}).Draw(t, "mode"),
 		Seed:    rapid.Uint64().Draw(t, "seed"),
 	}
 }
